@@ -130,6 +130,18 @@ CLAIMS["C19"] = dict(
     technique="abstract interpretation with closure semantics + access-relation decoding + algebraic GVN + AST who-may-call query",
     ref="DESIGN.md section 4 C19")
 
+CLAIMS["C16"] = dict(
+    text=("Whole statement within the conditions' regimes, for all interior states and parameters at once: registry, "
+          "signatures, dispatch and decoded call sites (left passes -1 and the interior R state, right +1 and the interior L "
+          "state, result stored as the exterior state); every condition is equivariant under reflection (1D, dir a symbolic "
+          "unit) and under the grid symmetries (2D, symbolic normal) as ring identities - the clause 'on either side / all "
+          "four sides'; defining identities: imposed total pressure / temperature with exponents in Q(gamma) (regime ptot >= p "
+          "parametrised, not sampled), interior pressure / imposed pressure, inflow sign, entropy and Riemann invariants "
+          "(squared form, no root selection), Rankine-Hugoniot momentum and energy jump relations, copies, wall reversal for any "
+          "unit normal, imposed-angle direction. Not decided: clamped regimes; the 2D call sites until the 2D decoder is present."),
+    technique="algebraic GVN with symbolic unit direction / unit normal and exponents in Q(gamma) + access-relation decoding of call sites + registry AST query",
+    ref="DESIGN.md section 4 C16")
+
 NA_REASONS = {
     "C09": ("runtime invariant of trajectories (range and total variation after every step for all data); its "
             "code-shape premises are owned and decided by C02, C05, C11, C12, C18; the remaining step (flux "
